@@ -15,6 +15,7 @@ class Arm:
         self.must = []         # (variant, stmt, block)
         self.may = []
         self.calls = set()
+        self.may_calls = set()
         self.line = 0
 
     def cond(self, subject_rx):
@@ -92,11 +93,13 @@ def extract_arms(prog, fv, state_adt_rx, out_adt_rx, result_local=None):
                 continue
             (a.must if (fv.dominates(ob, bi)) else a.may).append((os_["rv"]["v"], os_, ob))
         for cb, t in fv.calls():
-            if cb != bi and fv.dominates(cb, bi):
+            if cb != bi and (bi in fv.reach(cb)):
                 cc, _ = _discr_conds(fv, cb, brs)
                 if key <= set(cc.items()):
                     for n in callee_names(t):
-                        a.calls.add(n)
+                        a.may_calls.add(n)
+                        if fv.dominates(cb, bi):
+                            a.calls.add(n)
         arms.append(a)
     return arms
 
